@@ -68,7 +68,7 @@ try:
     def appnotes(tree):
         ok = True
         for s in ("create_bf3file.py", "create_bec2file_with_cust_key.py", "create_bec2file_with_ec_key.py", "verify_dh_secret.py"):
-            r = subprocess.run([PY, s], capture_output=True, text=True, cwd=os.path.join(tree, "appnotes"), timeout=300)
+            r = subprocess.run([PY, s], capture_output=True, text=True, cwd=os.path.join(tree, "appnotes"), timeout=300, env=dict(os.environ, PYTHONPATH=tree))
             ok = ok and r.returncode == 0
         return ok
 
